@@ -224,3 +224,7 @@ def run(repo: Repo, rep: Report, tier: str) -> None:
     missing8 = sorted(cand_alts - key_alts)
     rep.check(not missing8, "C04-R8", "_resolve_source_entity: every candidate id can also be looked up in the signal graph", f"candidates {sorted(cand_alts)}; graph keys {sorted(key_alts)}" if not missing8 else
               f"candidate(s) {missing8} have no graph key: a reference whose node was replaced (a read of a cell folded into an arithmetic loop) resolves to nothing", rse.loc(fallback[0]))
+
+    # ---------------- R9 ---------------------------------------------------------------
+    _borrow4(repo, rep, "C12", "C12-R2", "C04-R9", "the loop's wire carries only the loop: a relay pole on a long feedback or reader wire is shared with another network of the same "
+             "colour only through can_route_network, otherwise the other network's value of the cell's signal is added into the cell every tick", floor=5)
